@@ -5,12 +5,14 @@ Driver for the C13 streams.  Requests:
         program = length-prefixed list of statements, statement = `<lhs> <k> <read_1> … <read_k> <rhs>`
         (all tokens whitespace-free; rhs is the digest / escaped text of the right-hand side)
   dbu <inputs> <p> -> 1 | 0        (defBeforeUse)
-  keyeq <table> <form> <form>      -> 1 | 0  (model's VForm cache key equality; see Drivers/C06 for <expr>)
+  keyeq <keytable> <fkeytable> <form> <od> <form> <od> -> 1 | 0   (model's cache key equality)
+  compile <keytable> <fkeytable> <requests>          -> for each request the index of the first request with the same key
 -/
 import Pyiga.Proto
 import Pyiga.Model.SLP
+import Pyiga.Model.VFormIO
 
-open Pyiga Pyiga.Proto Pyiga.SLP
+open Pyiga Pyiga.Proto Pyiga.SLP Pyiga.VForm
 
 def pStmt : P Stmt := do
   let l ← tok; let r ← list tok; let rhs ← tok
@@ -21,6 +23,19 @@ def request : P String := do
   match op with
   | "perm" => do let p ← list pStmt; let q ← list pStmt; pure (permEquivWhy p q)
   | "dbu" => do let i ← list tok; let p ← list pStmt; pure (if defBeforeUse i p then "1" else "0")
+  | "keyeq" => do
+      let kt ← pKeyTable; let ft ← pFKeyTable
+      let a ← pForm; let oa ← bool; let b ← pForm; let ob ← bool
+      pure (if cacheKeyBeq kt ft (a, oa) (b, ob) then "1" else "0")
+  | "compile" => do
+      -- a history of requests against the model cache; `gen` = the request's index in the list of
+      -- distinct requests is not available here, so the answer is, per request, the position of the
+      -- first request in the history with the same cache key (what the dict lookup returns)
+      let kt ← pKeyTable; let ft ← pFKeyTable
+      let rs ← list (pair pForm bool)
+      let keys := rs.map (cacheKey kt ft)
+      let ans := keys.map fun k => (keys.findIdx? (fun k' => FVal.beq k' k)).getD 0
+      pure (showNats ans)
   | _ => failure
 
 def handle (line : String) : String :=
